@@ -95,6 +95,8 @@ var FieldDefs = []M{
 	{"uuid": UUID("field", 7), "key": "state", "name": "State", "type": "state"},
 	{"uuid": UUID("field", 8), "key": "district", "name": "District", "type": "district"},
 	{"uuid": UUID("field", 9), "key": "ward", "name": "Ward", "type": "ward"},
+	// keyed like an Excellent function: a reference to it must still be seen as a reference to the field
+	{"uuid": UUID("field", 10), "key": "title", "name": "Title", "type": "text"},
 }
 
 var staticGroups = []M{
@@ -124,7 +126,7 @@ var channels = []M{
 var labels = []M{{"uuid": UUID("label", 1), "name": "Spam"}, {"uuid": UUID("label", 2), "name": "Important"}}
 var topics = []M{{"uuid": UUID("topic", 1), "name": "General"}, {"uuid": UUID("topic", 2), "name": "Weather"}}
 var users = []M{{"email": "bob@nyaruka.com", "name": "Bob"}, {"email": "jim@nyaruka.com", "name": "Jim"}}
-var globals = []M{{"key": "org_name", "name": "Org Name", "value": "Nyaruka"}, {"key": "limit", "name": "Limit", "value": "18"}}
+var globals = []M{{"key": "org_name", "name": "Org Name", "value": "Nyaruka"}, {"key": "limit", "name": "Limit", "value": "18"}, {"key": "code", "name": "Code", "value": "XYZ"}}
 var optins = []M{{"uuid": UUID("optin", 1), "name": "Jokes"}}
 var classifiers = []M{{"uuid": UUID("classifier", 1), "name": "Booking", "type": "wit", "intents": []string{"book_flight", "book_hotel"}}}
 var resthooks = []M{{"slug": "new-registration", "subscribers": []string{"http://mock/?cmd=json", "http://mock/?cmd=gone"}}, {"slug": "empty-hook", "subscribers": []string{}}}
@@ -167,6 +169,7 @@ var baseTemplates = []string{
 	"@parent.results.color.value", "@child.results.color.value", "@trigger.type", "@resume.type", "@(now() > contact.created_on)",
 	"@(default(fields.score, 0) + 1)", "@node.visit_count", "@contact.tickets", "email me at bob@nyaruka.com", "@@escaped", "@input",
 	"@(foo", "@contact.fields.missing", "@(json(results))", "@contact.channel.name", "@(if(fields.age > 18, \"adult\", \"minor\"))",
+	"@fields.title", "Your code is @globals.code", "@(upper(fields.title) & globals.code)",
 }
 
 var stableTemplates = []string{"@input.text", "@contact.uuid", "@globals.org_name", "@globals.limit", "@trigger.params.word", "@(1 / 0)", "hello", "18", "@(upper(input.text))", "@trigger.type"}
